@@ -188,6 +188,20 @@ def drivePure : List String → Option String
     let w ← w.toNat?
     let text ← dec text
     pure (encList (wrapText w text))
+  | ["oss_set", cls, p, s] => do
+    let pr ← prOf p
+    let s ← dec s
+    pure (encSet ((ossSet pr (ossTable cls) s).map Val.s))
+  | ["vpc_set", p, s] => do
+    let pr ← prOf p
+    let s ← dec s
+    pure (encSet ((guardedStrSet pr prefixCharsOk s).map Val.s))
+  | ["vq_set", s] => (dec s).map fun s => encSet ((quotesSet s).map Val.s)
+  | ["guard_set", okvals, p, s] => do
+    let okvals ← decList okvals
+    let pr ← prOf p
+    let s ← dec s
+    pure (encSet ((guardedStrSet pr (fun v => okvals.contains v) s).map Val.s))
   | ["cache", l] => (decPairs l).map fun l => encPairs (cacheOf l)
   | ["esc", n] => (dec n).map fun n => enc (escapeName n)
   | ["unesc", n] => (dec n).map fun n => encRes (unescapeName n)
